@@ -950,12 +950,14 @@ func (p *ProjectRunner) GetProjectState(checkMem bool) (*types.ProjectState, err
 			runningProcesses++
 		}
 	}
-	p.projectState.RunningProcessNum = runningProcesses
-	p.projectState.UpTime = time.Since(p.projectState.StartTime)
+	// each caller gets its own snapshot: the shared record is only read here
+	state := *p.projectState
+	state.RunningProcessNum = runningProcesses
+	state.UpTime = time.Since(state.StartTime)
 	if checkMem {
-		p.projectState.MemoryState = getMemoryUsage()
+		state.MemoryState = getMemoryUsage()
 	}
-	return p.projectState, nil
+	return &state, nil
 }
 
 func getMemoryUsage() *types.MemoryState {
